@@ -183,7 +183,7 @@ func (c *vfakeSeqClient) GetVBucketSeqNos(bool) (*wrapper.ConcurrentSwissMap[uin
 		return nil, c.seqErr
 	}
 	m := wrapper.CreateConcurrentSwissMap[uint16, uint64](1024)
-	for vb := 0; vb < vNVB; vb++ {
+	for vb := 0; vb < vNV(); vb++ {
 		m.Store(uint16(vb), c.high[vb])
 	}
 	return m, nil
@@ -205,4 +205,12 @@ func newOffsetsMap() *wrapper.ConcurrentSwissMap[uint16, *models.Offset] {
 
 func newDirtyMap() *wrapper.ConcurrentSwissMap[uint16, bool] {
 	return wrapper.CreateConcurrentSwissMap[uint16, bool](1024)
+}
+
+func vAssigned() []uint16 {
+	var ids []uint16
+	for vb := 0; vb < vNV(); vb++ {
+		ids = append(ids, uint16(vb))
+	}
+	return ids
 }
